@@ -18,7 +18,7 @@ RULE = ("G-int arrangements (as C04) with 1-19 distinct kernel names per type, n
 ASSUMPTIONS = ["a kernel / annotation literally named 'others' is merged into the aggregate row: only conservation and the cap are judged for it", "total analysed busy time > 0 (percentages)", "type by the documented name rules"]
 FLOAT_KEYS = ["files"]          # fractional-time-unit workload class (hv/shard.py)
 PLAN = {"quick": {"shards": 16, "cases": 640, "timeout": 600}, "thorough": {"shards": 16, "cases": 8000, "timeout": 3000}}
-FLOORS = {"quick": {"distinct_nontrivial": 150, "type_tables": 350, "per_type_groups": 1200, "named_rows_judged": 2000, "others_rows": 150,
+FLOORS = {"quick": {"distinct_nontrivial": 150, "second_or_later_request_on_same_object": 150, "type_tables": 350, "per_type_groups": 1200, "named_rows_judged": 2000, "others_rows": 150,
                     "combo_rows_multi": 150, "annotation_breakdowns": 100, "annotation_rows_judged": 300},
           "thorough": {"distinct_nontrivial": 3000, "type_tables": 7000, "per_type_groups": 24000, "named_rows_judged": 40000, "others_rows": 3000,
                        "combo_rows_multi": 3000, "annotation_breakdowns": 2000, "annotation_rows_judged": 6000}}
@@ -30,9 +30,13 @@ def setup(ctx: Any) -> None:
 
 def gen_case(rnd, tier: str, i: Any) -> Dict[str, Any]:
     c = gen_int.gen_case(rnd, tier, annotations=True)
-    c["params"] = {"num_kernels": rnd.choice([1, 2, 3, 10]), "duration_ratio": rnd.choice([0.1, 0.5, 0.8, 1.0]),
-                   "include_memory_kernels": rnd.random() < 0.5, "use_gpu_annotation": rnd.random() < 0.6,
-                   "allowlist": rnd.choice([None, None, ["fwd"], ["nccl:", "loss"], ["nomatch"]])}
+    def prm():
+        return {"num_kernels": rnd.choice([1, 2, 3, 10]), "duration_ratio": rnd.choice([0.1, 0.5, 0.8, 1.0]),
+                "include_memory_kernels": rnd.random() < 0.5, "use_gpu_annotation": rnd.random() < 0.6,
+                "allowlist": rnd.choice([None, None, ["fwd"], ["nccl:", "loss"], ["nomatch"]])}
+    c["params"] = prm()
+    # further requests on the same TraceAnalysis object (other parameter values); each is judged on its own
+    c["more_params"] = [prm() for _ in range(rnd.choice([0, 0, 1, 2]))]
     return c
 
 
@@ -102,30 +106,45 @@ def _annotation_breakdown(case, ta, prm, res) -> bool:  # noqa: ANN001
 
 def run_case(case: Dict[str, Any], ctx: Any) -> core.CaseResult:
     res = core.CaseResult()
-    prm = case["params"]
     per_rank = {tr["distributedInfo"]["rank"]: c04.activities(tr) for tr in case["files"].values()}
-    types = ["COMPUTATION", "COMMUNICATION"] + (["MEMORY"] if prm["include_memory_kernels"] else [])
-    exp_combo: Dict[frozenset, int] = {}
     for r, acts in per_rank.items():
         if not acts:
             res.discarded, res.discard_reason = True, "rank without device activity"
             return res
-        for k, v in iv.segments([(e.ts, e.end, iv.kernel_type(e.name)) for e in acts], types).items():
-            exp_combo[k] = exp_combo.get(k, 0) + v
-    total = sum(exp_combo.values())
-    if total == 0:
-        res.discarded, res.discard_reason = True, "analysed busy time == 0"
-        return res
     d = ctx.scratch.new("c05")
     try:
         core.write_trace_files(d, case["files"])
         ok, ta = drv.guard(res, "TraceAnalysis(load)", drv.new_analysis, d)
         if not ok:
             return res
+        seq = [case["params"]] + list(case.get("more_params", []))
+        for k, prm in enumerate(seq):
+            if k >= 1:
+                res.counters["second_or_later_request_on_same_object"] += 1
+            if not _one_request(case, ta, prm, per_rank, res, k):
+                break
+        res.key = core.digest([case["files"], seq])
+    finally:
+        ctx.scratch.drop(d)
+    return res
+
+
+def _one_request(case, ta, prm, per_rank, res, k) -> bool:  # noqa: ANN001
+    types = ["COMPUTATION", "COMMUNICATION"] + (["MEMORY"] if prm["include_memory_kernels"] else [])
+    exp_combo: Dict[frozenset, int] = {}
+    for r, acts in per_rank.items():
+        for key, v in iv.segments([(e.ts, e.end, iv.kernel_type(e.name)) for e in acts], types).items():
+            exp_combo[key] = exp_combo.get(key, 0) + v
+    total = sum(exp_combo.values())
+    if total == 0:
+        if k == 0:
+            res.discarded, res.discard_reason = True, "analysed busy time == 0"
+        return False
+    if True:
         ok, out = drv.guard(res, "get_gpu_kernel_breakdown", ta.get_gpu_kernel_breakdown, visualize=False, num_kernels=prm["num_kernels"],
                             duration_ratio=prm["duration_ratio"], include_memory_kernels=prm["include_memory_kernels"])
         if not ok:
-            return res
+            return False
         kt, ak = out
         res.counters["type_tables"] += 1
         # ---- (a) kernel-type table
@@ -145,7 +164,7 @@ def run_case(case: Dict[str, Any], ctx: Any) -> core.CaseResult:
         keys = set(got_combo) | set(exp_combo)
         diff = {tuple(sorted(k)): (float(got_combo.get(k, 0)), exp_combo.get(k, 0)) for k in keys if float(got_combo.get(k, 0)) != float(exp_combo.get(k, 0))}
         if diff:
-            res.bad("type-partition", f"kernel-type table (reported, expected) differs for {diff}; params {prm}; rank0 activities "
+            res.bad("type-partition", f"request #{k + 1}: kernel-type table (reported, expected) differs for {diff}; params {prm}; rank0 activities "
                     f"{sorted((e.ts, e.end, iv.kernel_type(e.name)[:4]) for e in next(iter(per_rank.values())))[:12]}", diff=str(diff))
         if abs(sum(float(v) for v in got_combo.values()) - total) > 1e-9:
             res.bad("type-total", f"rows add up to {sum(got_combo.values())}, union of analysed kernels measures {total}")
@@ -188,11 +207,8 @@ def run_case(case: Dict[str, Any], ctx: Any) -> core.CaseResult:
                                     f"params {prm}, names of this type {len(durs)}", n_names=len(durs), num_kernels=prm["num_kernels"])
         many_names = _annotation_breakdown(case, ta, prm, res) or many_names
         multi = any(len(k) > 1 and v > 0 for k, v in exp_combo.items())
-        res.nontrivial = multi or many_names
+        res.nontrivial = res.nontrivial or multi or many_names
         res.trivial_reason = "no two analysed types overlap and names <= num_kernels"
-        res.key = core.digest([case["files"], prm])
         res.sample = {"params": prm, "ranks": len(per_rank), "expected_type_times": {" & ".join(sorted(k)): v for k, v in exp_combo.items()},
                       "type_table": kt.to_dict("records")[:4], "per_kernel_rows": ak.head(3).to_dict("records")}
-    finally:
-        ctx.scratch.drop(d)
-    return res
+    return True
